@@ -73,6 +73,10 @@ fn column_of(kind: ElementKind, key: &str) -> Option<&'static str> {
 /// The dot path a matcher key reads in the rendered view.
 fn view_key(kind: ElementKind, key: &str) -> String {
     match (kind, key) {
+        // The engine state is rendered inside `_system`; a matcher decided
+        // against the view (a historical read) has to look there, or
+        // `{state: ...}` matches nothing at a past coordinate.
+        (_, "state") => "_system.state".to_string(),
         (ElementKind::Concept, "type") => "schema_ref".to_string(),
         (ElementKind::Evidence, "class") => "evidence_class".to_string(),
         (ElementKind::Activity, "class") => "activity_class".to_string(),
